@@ -1,3 +1,7 @@
+import FrappyProofs.Lemmas.Codec
+import FrappyProofs.Lemmas.Framing
 import FrappyProofs.Lemmas.Logging
+import FrappyProofs.Lemmas.ReqLoop
 import FrappyProofs.Lemmas.Rotate
+import FrappyProofs.Props.C07
 import FrappyProofs.Props.C20
